@@ -12,6 +12,9 @@ I(n) == IOfInt(n)
 
 RECURSIVE Take(_, _)
 Take(S, k) == IF k = 0 \/ S = {} THEN {} ELSE LET x == CHOOSE y \in S : TRUE IN {x} \cup Take(S \ {x}, k - 1)
+\* k values spread over the (deterministic) enumeration order of the set: the smallest, the largest, and evenly between
+Spread(S, k) == LET q == SetToSeq(S) n == Len(q)
+                IN IF n <= k THEN S ELSE IF k = 1 THEN {q[n]} ELSE {q[1 + ((i * (n - 1)) \div (k - 1))] : i \in 0..(k - 1)}
 RECURSIVE SetSeq(_)
 SetSeq(S) == IF S = {} THEN <<>> ELSE LET x == CHOOSE y \in S : TRUE IN <<x>> \o SetSeq(S \ {x})
 
@@ -81,12 +84,13 @@ StringValues(T, cap) ==
   IF T.st \in {"UTCTime", "GeneralizedTime"} THEN TimeValues(T.st)
   ELSE LET ch == CharSamples(T) IN
        UNION {{Cyc(ch, n, 0), Cyc(ch, n, Len(ch) - 1)} : n \in SizeSamples(T.size, cap)}
+       \cup (IF T.size.op = "none" /\ T.alpha = <<>> THEN {Cyc(ch, n, 1) : n \in {127, 128}} ELSE {})
 
 BitPattern(n, kind) == [i \in 1..n |-> IF kind = "ones" THEN 1 ELSE IF kind = "alt" THEN i % 2 ELSE (i + 1) % 2]
 BitsValues(T, cap) ==
   UNION {{[n |-> n, o |-> PackRight(BitPattern(n, kd))] : kd \in {"ones", "alt", "alt2"}} : n \in SizeSamples(T.size, cap)}
 \* lengths at which an encoding crosses a power of two / the 127-128 length-form boundary
-BoundarySizes(c) == {n \in {30, 31, 62, 63, 126, 127, 128} : Sat(c, I(n), BI(0), BMax)}
+BoundarySizes(c) == {n \in {30, 31, 62, 63, 126, 127, 128, 129} : Sat(c, I(n), BI(0), BMax)}
 OctetsValues(T, cap) ==
   UNION {{Cyc(<<0, 255, 1, 128, 127>>, n, 0), Cyc(<<171>>, n, 0)} : n \in SizeSamples(T.size, cap)}
   \cup (IF T.size.op = "none" THEN {Cyc(<<171, 0, 255>>, n, 0) : n \in BoundarySizes(T.size)} ELSE {})
@@ -127,7 +131,7 @@ Values(env, T0, d) ==
              opt == {j \in usable : optional(j)}
          IN IF ~(mand \subseteq usable) THEN {}
             ELSE {mk(usable, base), mk(mand, base)}
-                 \cup UNION {{mk(usable, [base EXCEPT ![i] = x]) : x \in Take(vals[i], 12)} : i \in usable}
+                 \cup UNION {{mk(usable, [base EXCEPT ![i] = x]) : x \in Spread(vals[i], 12)} : i \in usable}
                  \cup {mk(usable \ {i}, base) : i \in opt}
                  \cup {mk(mand \cup {i}, base) : i \in opt}
                  \cup {mk(usable, [base EXCEPT ![i] = cs[i].d]) : i \in {j \in usable : cs[j].o = "D"}}
@@ -135,10 +139,12 @@ Values(env, T0, d) ==
     [] T.k = "CHOICE" ->
          IF d = 0 THEN {} ELSE
          LET cs == AllComps(T)
-         IN UNION {{MkAlt(cs[i].n, x) : x \in Take(Values(env, cs[i].t, d - 1), 8)} : i \in DOMAIN cs}
+         IN UNION {{MkAlt(cs[i].n, x) : x \in Spread(Values(env, cs[i].t, d - 1), 8)} : i \in DOMAIN cs}
     [] T.k \in {"SEQOF", "SETOF"} ->
          LET ev == IF d = 0 THEN <<>> ELSE SetSeq(Take(Values(env, T.t, d - 1), 6))
+             \* lists of leaf elements also at the lengths where a length / count field changes its form
              sizes == SizeSamples(T.size, 4)
+                      \cup (IF T.k = "SEQOF" /\ T.size.op = "none" /\ Resolve(env, T.t).k \in {"BOOLEAN", "NULL", "ENUM"} THEN {127, 128, 129} ELSE {})
          IN IF ev = <<>> THEN (IF 0 \in sizes THEN {<<>>} ELSE {})
             ELSE UNION {{Cyc(ev, n, 0), Cyc(Rev(ev), n, 0), Cyc(ev, n, 1), Cyc(<<ev[Len(ev)]>>, n, 0)} : n \in sizes}
 
